@@ -47,3 +47,7 @@ pub(crate) use sparsevector::*;
 //configure tests of internals
 #[cfg(test)]
 mod tests;
+
+// verification-only hooks (see /verif); compiled only under the guard cfg
+#[cfg(oxfordcontrol_clarabel_rs_verif)]
+pub mod verif_hooks;
